@@ -171,6 +171,15 @@ def run(case):
         if len(x) == 0:
             return {"obs": []}
         r = d.cdist(x, y, metric=case["m"])
+        if case["m"] == "equal" and len(y):
+            import warnings
+            with warnings.catch_warnings():
+                warnings.simplefilter("ignore")
+                # labels of another kind on the other side (numbers against strings) are simply never equal
+                mixed = np.asarray(d.cdist(x, np.array(["s%d" % int(v) for v in case["ys"]]), metric="equal"))
+            assert mixed.shape == (len(x), len(y)) and not mixed.any(), "cdist 'equal' between numbers and strings: %r" % (mixed,)
+            strs = np.asarray(d.cdist(np.array(["s%d" % int(v) for v in case["xs"]]), np.array(["s%d" % int(v) for v in case["ys"]]), metric="equal"))
+            assert bool((strs == np.asarray(r)).all()), "cdist 'equal' on string labels differs from the same labels as numbers"
         conv = lambda v: int(v * f) if float(v * f).is_integer() else (_ for _ in ()).throw(ValueError("off grid"))
         return {"obs": [[conv(v) for v in row] for row in np.asarray(r).reshape(len(x), len(y)).tolist()]}
     if k == "prop":
